@@ -28,7 +28,11 @@ def parse_harness_file(path):
     txt = open(path).read()
     inject = None
     harnesses = []
+    oracle = None
     for l in txt.split('\n'):
+        mm = re.match(r'//@oracle\s+(\S+)\s+(\S+)\s+(\S+)', l)     # //@oracle <file in replay/> <test path> <inject target>
+        if mm:
+            oracle = {'file': mm.group(1), 'test': mm.group(2), 'inject': mm.group(3)}
         mm = re.match(r'//@inject\s+(\S+)', l)
         if mm:
             inject = mm.group(1)
@@ -38,6 +42,7 @@ def parse_harness_file(path):
     if inject is None:
         raise RuntimeError('%s: no //@inject directive' % path)
     for h in harnesses:
+        h['oracle'] = oracle
         if not re.search(r'\b%s\b' % h['name'], txt.split('#[cfg(kani)]', 1)[-1]):
             raise RuntimeError('%s: //@harness %s not defined in the file' % (path, h['name']))
     stubs = sorted(set(re.findall(r'#\[kani::stub\(\s*([^,]+?)\s*,', txt)))
